@@ -45,6 +45,24 @@ Theorem C02_time_never_early : forall c ops number time et tr id,
 Proof. exact time_never_early. Qed.
 Print Assumptions C02_time_never_early.
 
+(* The same in the registry contract's reading of the release time.  The contract's release time is
+   a uint64 and the table holds int64(release time): a release time >= 2^63 ("never") is stored
+   as a negative number, which the signed comparison in shouldTriggerDecryption would take for
+   long released.  For every history and every block (no hypothesis on block times; the block
+   time is the header's uint64, u64 time): the stored value is an int64, and the contract's value
+   u64 (stored) is strictly below the block time; for block times below 2^63 the stored value
+   is non-negative.  (What excludes the negative rows is the lower bound of the query window.) *)
+Theorem C02_time_never_early_unsigned : forall c ops number time et tr id,
+  In tr (time_triggers c (run c ops) number time et) -> In id (tg_ids tr) ->
+  exists r, time_registered ops r /\
+            In r (irs (st_db (run c ops))) /\ ir_identity r = id /\ ir_eon r = tg_cfg tr /\
+            ir_decrypted r = false /\
+            - 2^63 <= ir_timestamp r < 2^63 /\
+            u64 (ir_timestamp r) < u64 time /\
+            (u64 time < 2^63 -> 0 <= ir_timestamp r).
+Proof. exact time_never_early_unsigned. Qed.
+Print Assumptions C02_time_never_early_unsigned.
+
 (* Event based: every identity of every event based trigger has a fired row f and an
    undecrypted registration x for (keyper set, identity), the set is servable, and f got into
    the table either by a raw Fire operation (standing for the event syncer, C16) or because the
@@ -388,3 +406,13 @@ Example C02_translated_trigger_decision_agrees_nonvacuous :
   gen_log_expired 200 200 = false /\ gen_log_expired 201 200 = true /\
   gen_early_return (Some 1000) 1000 = true /\ gen_early_return (Some 1000) 1001 = false.
 Proof. vm_compute. repeat split; reflexivity. Qed.
+
+(* release time 2^64-1 ("never") is stored as -1: not triggered at the first block after a start,
+   nor after a restart, while the ordinary registration is *)
+Example C02_time_never_early_unsigned_nonvacuous :
+  let ops := (ex_ops ++ [OpRegisterTime (hx "09") 1 (ex_id "99") (-1) 90;
+                         OpRegisterTime (hx "0a") 1 (ex_id "98") (-9223372036854775808) 90])%list in
+  time_triggers ex_cfg (run ex_cfg ops) 100 1000 idf = [mkTrig 1 100 [ex_id "0f"; ex_id "1101"]] /\
+  time_triggers ex_cfg (run ex_cfg (ops ++ [OpNewBlock 100 1000 idf idf; OpRestart])) 101 1001 idf
+  = [mkTrig 1 100 [ex_id "0f"; ex_id "1100"; ex_id "1101"]].
+Proof. vm_compute. split; reflexivity. Qed.
